@@ -464,7 +464,9 @@ func (fr *Frame) execStmt(st *State, s ast.Stmt) (res []Outcome) {
 	case *ast.GoStmt:
 		// `go func(args){...}(args)`: fork/join idiom, sequentialised; `go named(...)`: spawn, no effect here
 		if _, ok := s.Call.Fun.(*ast.FuncLit); ok {
+			e.inGoStmt = true
 			fr.evalCall(st, s.Call, 0)
+			e.inGoStmt = false
 			return normal(st)
 		}
 		e.dropped["go "+exprString(s.Call.Fun)+"(...) [spawn: verified separately]"] = true
@@ -907,6 +909,17 @@ func (fr *Frame) loopBindings(lc *loopCtx) map[string]*SVal {
 }
 
 func (fr *Frame) execFor(st *State, s *ast.ForStmt, label string) []Outcome {
+	nLoopVars := len(fr.e.loopVars)
+	defer func() { fr.e.loopVars = fr.e.loopVars[:nLoopVars] }()
+	if as, ok := s.Init.(*ast.AssignStmt); ok && as.Tok == token.DEFINE {
+		for _, x := range as.Lhs {
+			if id, ok := x.(*ast.Ident); ok && id.Name != "_" {
+				if v, ok := fr.info.Defs[id].(*types.Var); ok {
+					fr.e.loopVars = append(fr.e.loopVars, v)
+				}
+			}
+		}
+	}
 	if s.Init != nil {
 		outs := fr.execStmt(st, s.Init)
 		if len(outs) != 1 || outs[0].kind != oNormal {
@@ -974,6 +987,17 @@ func (fr *Frame) execRange(st *State, s *ast.RangeStmt, label string) []Outcome 
 	if id, ok := s.Value.(*ast.Ident); ok && id.Name != "_" {
 		if v, ok := fr.info.ObjectOf(id).(*types.Var); ok {
 			ms.vars[v] = true
+		}
+	}
+	nLoopVars := len(e.loopVars)
+	defer func() { e.loopVars = e.loopVars[:nLoopVars] }()
+	if s.Tok == token.DEFINE {
+		for _, x := range []ast.Expr{s.Key, s.Value} {
+			if id, ok := x.(*ast.Ident); ok && id.Name != "_" {
+				if v, ok := fr.info.Defs[id].(*types.Var); ok {
+					e.loopVars = append(e.loopVars, v)
+				}
+			}
 		}
 	}
 	bindKV := func(b *State, k, v *Term) {
